@@ -19,7 +19,7 @@ from . import brownian as B
 
 EPS = torch.finfo(torch.float64).eps
 LEVIES = ("none", "space-time", "davie", "foster")
-SHAPES = {"scalar": (), "batch": (3,), "matrix": (2, 3)}
+SHAPES = {"scalar": (), "batch": (3,), "matrix": (2, 3), "cube": (2, 3, 3)}   # cube: two batch dimensions, the second equal to the channel count
 
 
 def _scale(*ts):
@@ -683,7 +683,7 @@ def ctor_outcome(c):
     """Construct the real BrownianInterval for one configuration of BrownianCtor and, if accepted, ask a few
     in-range queries.  Returns 'ok', 'ValueError', another exception name, or 'query:<exc>'."""
     shape = SHAPES[c["shape"]]
-    other = {(): (2,), (3,): (4,), (2, 3): (3, 2)}[shape]
+    other = {(): (2,), (3,): (4,), (2, 3): (3, 2), (2, 3, 3): (3, 3, 2)}[shape]
     t0, t1 = {"lt": (0.0, 1.0), "eq": (0.5, 0.5), "gt": (1.0, 0.0)}[c["order"]]
     if c.get("ends") == "off":        # end points off the tolerance grid (rounding outwards and inwards), straddling zero
         t0, t1 = {"lt": (-1.0 / 3.0, 2.0 / 3.0), "eq": (2.0 / 3.0, 2.0 / 3.0), "gt": (2.0 / 3.0, -1.0 / 3.0)}[c["order"]]
